@@ -165,10 +165,10 @@ func GenHistorySpec(procSeed uint64, idx int, pool []*Key, eligible []int) RunSp
 	sharedFor := map[string]int{}
 	for t := 0; t < nt; t++ {
 		var ts TaskSpec
-		nc := r.Range(40, 120)
+		nc := r.Range(80, 200)
 		for c := 0; c < nc; c++ {
 			var ki int
-			if r.Chance(1, 2) {
+			if r.Chance(1, 4) {
 				ki = ws[r.Intn(len(ws))]
 			} else {
 				ki = eligible[r.Intn(len(eligible))]
